@@ -22,7 +22,7 @@ for _v in ('OMP_NUM_THREADS', 'OPENBLAS_NUM_THREADS', 'MKL_NUM_THREADS'):
 import sys
 if '/repo' not in sys.path and not any(p.rstrip('/') == os.environ.get('DFOLS_REPO', '/repo') for p in sys.path):
     sys.path.insert(0, os.environ.get('DFOLS_REPO', '/repo'))
-import logging, math, re, warnings, traceback
+import logging, math, re, time, warnings, traceback
 import numpy as np
 
 
@@ -99,13 +99,19 @@ def make_residual(gen, pseed, n, m, zero_at=None):
     return base
 
 
+class SolveTimeUp(Exception):
+    """raised from inside the objective when one run takes too long (slow sub-solvers, not a property matter)"""
+
+
 class Recorder(object):
     """the user's objective: records every call (x copy, returned residual copy, call index 1,2,...) and the
     interleaving with nsamples-callback calls (events)."""
 
-    def __init__(self, base, m, noise=None):
+    def __init__(self, base, m, noise=None, time_limit=None):
         self.base = base
         self.m = m
+        self.t0 = time.process_time()      # CPU time: the guard must not depend on how busy the machine is
+        self.time_limit = time_limit
         self.calls = []          # list of (x, r)
         self.events = []         # ('f', call_index) | ('ns', returned value, (delta, rho, iter, nruns))
         self.noise = noise
@@ -113,6 +119,8 @@ class Recorder(object):
         self.sigma = hf(noise['sigma']) if noise else 0.0
 
     def __call__(self, x, *args):
+        if self.time_limit is not None and time.process_time() - self.t0 > self.time_limit:
+            raise SolveTimeUp('run exceeded %.1f s of CPU time after %d evaluations' % (self.time_limit, len(self.calls)))
         xc = np.array(x, dtype=float, copy=True)
         r = np.asarray(self.base(xc), dtype=float)
         if self.noise is not None:
@@ -199,14 +207,17 @@ class _Capture(logging.Handler):
             self.evals.append((int(mt.group(1)), int(mt.group(2))))
 
 
-def run_solve(problem, capture_log=True):
+TIME_LIMIT = 2.0      # CPU seconds per solve; checked at every objective call
+
+
+def run_solve(problem, capture_log=True, time_limit=TIME_LIMIT):
     """run dfols.solve on `problem`; returns a record dict:
        soln (OptimResults or None), exc (None | 'Type: text'), calls [(x, r)], events, log [(eval_num, pt_num)] or None,
        lower/upper (arrays as the user passed them, +-inf where absent), x0, problem, h (callable or None)"""
     import dfols
     n, m = int(problem['n']), int(problem['m'])
     base = make_residual(problem['gen'], problem['pseed'], n, m, hv(problem.get('zero_at')))
-    rec = Recorder(base, m, problem.get('noise'))
+    rec = Recorder(base, m, problem.get('noise'), time_limit=time_limit)
     x0 = hv(problem['x0'])
     lo, up = hv(problem.get('lower')), hv(problem.get('upper'))
     kw = dict(problem['kwargs'])
@@ -247,6 +258,8 @@ def run_solve(problem, capture_log=True):
         with warnings.catch_warnings():
             warnings.simplefilter('ignore')
             soln = dfols.solve(rec, x0.copy(), do_logging=bool(capture_log), print_progress=False, **args)
+    except SolveTimeUp as ex:
+        exc = 'SolveTimeUp: %s' % ex
     except Exception as ex:  # the solver's own failure: recorded, judged by the caller
         tb = traceback.extract_tb(sys.exc_info()[2])
         where = ''
@@ -262,7 +275,7 @@ def run_solve(problem, capture_log=True):
         utl.setLevel(lv2); utl.handlers = hs2
     lo_full = np.full(n, -np.inf) if lo is None else lo
     up_full = np.full(n, np.inf) if up is None else up
-    return dict(soln=soln, exc=exc, calls=rec.calls, events=rec.events, log=(cap.evals if capture_log else None),
+    return dict(soln=soln, exc=exc, timeup=bool(exc and exc.startswith('SolveTimeUp')), calls=rec.calls, events=rec.events, log=(cap.evals if capture_log else None),
                 lower=lo_full, upper=up_full, x0=x0, problem=problem, h=h, n=n, m=m)
 
 
@@ -321,11 +334,17 @@ def _choice(rng, items, p=None):
     return items[int(rng.choice(len(items), p=p))]
 
 
-def gen_problem(rng, profile='general'):
+FORCES = (None, 'restarts', None, 'tiny', None, 'noise', None, 'zero_at', None, 'restarts', None, 'slow')
+
+
+def gen_problem(rng, profile='general', force=None):
     """draw one problem + option set; every random choice from `rng` (a numpy Generator).
     profile: 'bounds' (C01: always bounds, never projections), 'budget' (C02: more averaging / small budgets / restarts),
-             'general' (C03: everything), 'determ' (C04: deterministic objective, one sample per point)."""
+             'general' (C03: everything), 'determ' (C04: deterministic objective, one sample per point).
+    force: None | 'trinc' (determ only: small ball constraints, the route to trust-region-increase exits) | 'restarts' | 'tiny' (budget below/around the initialisation cost) | 'noise' | 'zero_at' (residual zero at the
+           projected x0) | 'proj' | 'slow' : makes the named feature certain instead of random (ignored where not applicable)."""
     P = profile
+    F = force
     n = int(rng.integers(1, 6))
     m = int(rng.integers(1, 7))
     gen = _choice(rng, GENS, p=[0.2, 0.2, 0.15, 0.15, 0.15 if P == 'determ' else 0.1, 0.15 if P == 'determ' else 0.2])
@@ -338,7 +357,14 @@ def gen_problem(rng, profile='general'):
         x0[int(rng.integers(0, n))] = 0.0
 
     # ---- constraint kind
-    use_proj = (P in ('general', 'determ', 'budget')) and rng.random() < (0.3 if P == 'determ' else 0.12)
+    use_proj = (P in ('general', 'determ', 'budget')) and (rng.random() < {'determ': 0.12, 'general': 0.07, 'budget': 0.04}[P] or F in ('proj', 'trinc'))
+    if F == 'trinc' and P == 'determ':
+        n = int(rng.integers(2, 4))
+        x0 = x0[:n].copy() if len(x0) >= n else xscale * rng.standard_normal(n)
+        gen = _choice(rng, ['affine', 'affine', 'quad', 'flat', 'nonsmooth', 'expsin'])
+    if use_proj and n > 3:
+        n = int(rng.integers(1, 4))
+        x0 = x0[:n].copy()
     if P == 'bounds':
         bkind = _choice(rng, ['finite', 'finite', 'finite', 'lower', 'upper', 'mixed'])
     elif use_proj:
@@ -357,10 +383,17 @@ def gen_problem(rng, profile='general'):
             rhobeg = min(rhobeg, 0.45)
         rhobeg_arg = rhobeg
     rhoend = float(_choice(rng, [1e-8, 1e-8, 1e-6, 1e-4, 1e-3, 1e-2, 1e-1])) * (rhobeg if rng.random() < 0.8 else 1.0)
+    if F == 'restarts':
+        rhoend = float(_choice(rng, [1e-3, 1e-2, 1e-1])) * rhobeg
     if not (rhoend < 0.5 * rhobeg):
         rhoend = 1e-3 * rhobeg
 
     # ---- bounds and the place of x0 relative to them (gap >= 2*rhobeg in the space the solver works in)
+    # zint: a point that has a rhobeg-neighbourhood (or, for the bound box, a half neighbourhood) inside every set, so the
+    # feasible set has non-empty interior; it is x0 itself or (projections only) a point a few rhobeg away from x0
+    zint = x0.copy()
+    if use_proj and rng.random() < 0.4:
+        zint = x0 + rhobeg * float(_choice(rng, [0.5, 2.0, 5.0])) * rng.standard_normal(n)
     lower = upper = None
     place = 'free'
     if bkind != 'none':
@@ -376,7 +409,7 @@ def gen_problem(rng, profile='general'):
             a = np.full(n, 2.0 * g) * rng.integers(0, 2, size=n)
             b = 2.0 * g - a
             a = a + 0.0
-        centre = x0.copy()
+        centre = zint.copy()
         lower = centre - a
         upper = centre + b
         # make sure the solver's own input check (min(xu - xl) >= 2*rhobeg) passes, in float arithmetic
@@ -433,17 +466,16 @@ def gen_problem(rng, profile='general'):
     if use_proj:
         k = int(rng.integers(1, 3))
         for _ in range(k):
-            if rng.random() < 0.65:
+            if rng.random() < 0.65 or (F == 'trinc' and not proj):
                 off = rng.standard_normal(n)
                 off = off / max(np.linalg.norm(off), 1e-300)
-                rad = rhobeg * float(_choice(rng, [1.5, 3.0, 10.0, 30.0]))
-                dist = rad * float(_choice(rng, [0.0, 0.5, 0.9, 1.0, 1.3]))
-                proj.append(dict(kind='ball', c=vh(x0 + dist * off), r=fh(rad)))
+                rad = rhobeg * float(_choice(rng, [2.0, 3.0, 10.0, 30.0] if F != 'trinc' else [2.0, 3.0, 5.0]))
+                dist = (rad - 1.2 * rhobeg) * float(_choice(rng, [0.0, 0.5, 0.9, 1.0]))     # ball contains B(zint, rhobeg)
+                proj.append(dict(kind='ball', c=vh(zint + dist * off), r=fh(rad)))
             else:
-                a = rhobeg * (1.0 + 10.0 * rng.random(n))
-                b = rhobeg * (1.0 + 10.0 * rng.random(n))
-                sh = rhobeg * float(_choice(rng, [0.0, 0.0, 1.0])) * rng.standard_normal(n)
-                proj.append(dict(kind='box', l=vh(x0 + sh - a), u=vh(x0 + sh + b)))
+                a = rhobeg * (1.2 + 10.0 * rng.random(n))
+                b = rhobeg * (1.2 + 10.0 * rng.random(n))
+                proj.append(dict(kind='box', l=vh(zint - a), u=vh(zint + b)))
 
     # ---- npt / growing / initialisation
     up_ = {}
@@ -486,12 +518,12 @@ def gen_problem(rng, profile='general'):
     has_noise_flag = False
     if P != 'determ':
         pn = {'bounds': 0.25, 'budget': 0.45, 'general': 0.4}[P]
-        if rng.random() < pn:
+        if rng.random() < pn or F == 'noise':
             noise = dict(kind=_choice(rng, ['add', 'add', 'mult']), sigma=fh(_choice(rng, [1e-6, 1e-3, 1e-2, 1e-1])),
                          seed=int(rng.integers(0, 2 ** 31 - 1)))
             has_noise_flag = rng.random() < 0.8
         pa = {'bounds': 0.25, 'budget': 0.6, 'general': 0.45}[P]
-        if rng.random() < (pa if noise is not None else 0.5 * pa):
+        if rng.random() < (pa if noise is not None else 0.5 * pa) or F == 'noise':
             kind = _choice(rng, ['const', 'const', 'iter', 'rho', 'runs'])
             nsamples = dict(kind=kind, k=int(rng.integers(2, 5)))
             if kind == 'rho':
@@ -507,7 +539,7 @@ def gen_problem(rng, profile='general'):
     # ---- restarts
     pr = {'bounds': 0.35, 'budget': 0.45, 'general': 0.5, 'determ': 0.45}[P]
     restarts = None
-    if rng.random() < pr:
+    if (rng.random() < pr or F == 'restarts') and not (F == 'trinc' and rng.random() < 0.7):
         up_['restarts.use_restarts'] = True
         soft = rng.random() < 0.5
         up_['restarts.use_soft_restarts'] = bool(soft)
@@ -533,7 +565,8 @@ def gen_problem(rng, profile='general'):
                 up_['restarts.increase_npt'] = True
                 up_['restarts.increase_npt_amt'] = int(rng.integers(1, 3))
                 up_['restarts.max_npt'] = int(rng.integers(npt + 1, cap + 1))
-                if rng.random() < 0.5:
+                if not soft:
+                    # documented advice: same amount, otherwise the new run starts in a growing phase with npt > n+1
                     up_['restarts.hard.increase_ndirs_initial_amt'] = up_['restarts.increase_npt_amt']
                 if rng.random() < 0.3:
                     up_['regression.increase_num_extra_steps_with_restart'] = 1
@@ -550,7 +583,7 @@ def gen_problem(rng, profile='general'):
         restarts = 'soft'
 
     # ---- termination / radius parameters
-    if rng.random() < 0.3:
+    if rng.random() < 0.2 or F == 'slow':
         up_['slow.max_slow_iters'] = int(rng.integers(1, 5))
         up_['slow.thresh_for_slow'] = fh(float(_choice(rng, [1e-2, 0.1, 0.5, 2.0])))
         up_['slow.history_for_slow'] = int(rng.integers(1, 6))
@@ -572,14 +605,16 @@ def gen_problem(rng, profile='general'):
 
     # ---- regulariser
     reg = None
-    preg = {'bounds': 0.15, 'budget': 0.08, 'general': 0.15, 'determ': 0.15}[P]
-    if rng.random() < preg and not growing:
+    preg = {'bounds': 0.07, 'budget': 0.04, 'general': 0.07, 'determ': 0.07}[P]
+    if rng.random() < preg and not growing and F != 'trinc':
         reg = fh(float(_choice(rng, [1e-3, 0.1, 1.0])))
-        up_['func_tol.max_iters'] = int(_choice(rng, [20, 50, 100]))
+        up_['func_tol.max_iters'] = int(_choice(rng, [5, 20, 60]))
+        if rng.random() < 0.5:
+            up_['dykstra.max_iters'] = 10
 
     # ---- exit at x0: residuals vanish at the (projected) starting point
     zero_at = None
-    if rng.random() < 0.06 and not use_proj:
+    if (rng.random() < 0.05 or F == 'zero_at') and not use_proj:
         z = x0.copy()
         if lower is not None:
             z = np.maximum(z, lower)
@@ -593,22 +628,26 @@ def gen_problem(rng, profile='general'):
     init_cost = npt
     u = rng.random()
     psmall = {'bounds': 0.15, 'budget': 0.35, 'general': 0.25, 'determ': 0.3}[P]
-    if u < psmall:
+    if u < psmall or F == 'tiny':
         maxfun = int(rng.integers(1, init_cost * (4 if nsamples else 1) + 3))
     elif u < 0.6:
         maxfun = int(rng.integers(init_cost + 2, 50))
     else:
         maxfun = int(rng.integers(30, 121))
+    if F == 'restarts' and maxfun < 60 and u >= psmall:
+        maxfun = int(rng.integers(60, 121))
     if reg is not None:
-        maxfun = min(maxfun, 60)
+        maxfun = min(maxfun, 30)
     if use_proj:
-        maxfun = min(maxfun, 80)
+        maxfun = min(maxfun, 40 if reg is None else 20)
+    if F == 'trinc' and use_proj:
+        maxfun = int(rng.integers(25, 61))
 
     kwargs = dict(npt=int(npt), rhobeg=None if rhobeg_arg is None else fh(rhobeg_arg), rhoend=fh(rhoend), maxfun=int(maxfun),
                   scaling_within_bounds=bool(scaling), objfun_has_noise=bool(has_noise_flag))
     prob = dict(gen=gen, pseed=pseed, n=n, m=m, zero_at=zero_at, x0=vh(x0), lower=vh(lower), upper=vh(upper), noise=noise,
                 nsamples=nsamples, reg=reg, proj=proj, kwargs=kwargs, user_params=up_, np_seed=int(rng.integers(0, 2 ** 31 - 1)),
-                tags=dict(bounds=bkind, place=place, growing=bool(growing), restarts=restarts or 'none', profile=P))
+                tags=dict(bounds=bkind, place=place, growing=bool(growing), restarts=restarts or 'none', profile=P, force=F or 'none'))
     return prob
 
 
@@ -668,3 +707,83 @@ def problem_summary(problem):
     return dict(gen=problem['gen'], n=problem['n'], m=problem['m'], kwargs=problem['kwargs'], user_params=problem['user_params'],
                 tags=problem.get('tags'), noise=problem.get('noise'), nsamples=problem.get('nsamples'), reg=problem.get('reg'),
                 nproj=len(problem.get('proj') or []))
+
+
+# ------------------------------------------------------------------------------------------------ generic sweep task
+QUICK_TASKS, RUNS_PER_TASK, THOROUGH_FACTOR = 64, 25, 20
+
+
+def make_tasks(prop, seed, tier, profile, quick_tasks=QUICK_TASKS, runs=RUNS_PER_TASK):
+    nt = quick_tasks if tier == 'quick' else quick_tasks * THOROUGH_FACTOR
+    return [dict(prop=prop, seed=int(seed), i=int(i), k=int(runs), profile=profile) for i in range(nt)]
+
+
+def run_generic(task, judge, capture_log=True, max_viol_per_sig=3):
+    """judge(record) -> dict(violations=[dict(signature, what, detail=dict)], nontrivial=bool, marks=[str])"""
+    rng = np.random.default_rng((int(task['seed']), int(task['i'])))
+    stats = dict(exit_route={}, exit_flag={}, options={}, n={}, m={}, marks={}, exceptions={}, runs=0, objective_calls=0,
+                 runs_with_restarts=0, timeups=0)
+    out = dict(evaluations=0, nontrivial=0, violations=[], stats=stats, sample=None)
+    per_sig = {}
+    cpu0 = time.process_time()
+    for j in range(int(task['k'])):
+        force = FORCES[(int(task['i']) * 5 + j) % len(FORCES)]
+        prob = gen_problem(rng, task['profile'], force)
+        rec = run_solve(prob, capture_log=capture_log)
+        res = judge(rec)
+        out['evaluations'] += 1
+        stats['runs'] += 1
+        stats['objective_calls'] += len(rec['calls'])
+        bump(stats['exit_route'], exit_route(rec['soln']))
+        bump(stats['exit_flag'], flag_name(rec['soln']))
+        for t in option_tags(prob):
+            bump(stats['options'], t)
+        bump(stats['n'], str(prob['n']))
+        bump(stats['m'], str(prob['m']))
+        for mk in res.get('marks', []):
+            bump(stats['marks'], mk)
+        if rec['exc']:
+            if rec['timeup']:
+                stats['timeups'] += 1
+            else:
+                bump(stats['exceptions'], rec['exc'].split(':')[0] + (rec['exc'][rec['exc'].rfind(' @'):] if ' @' in rec['exc'] else ''))
+        if count_restarts(rec) > 0:
+            stats['runs_with_restarts'] += 1
+        if res.get('nontrivial'):
+            out['nontrivial'] += 1
+        for v in res.get('violations', []):
+            c = per_sig.get(v['signature'], 0)
+            per_sig[v['signature']] = c + 1
+            if c < max_viol_per_sig:
+                data = dict(problem=prob, signature=v['signature'], task=dict(task), run=j)
+                data.update(v.get('detail', {}))
+                out['violations'].append(dict(signature=v['signature'], what=v['what'], data=data))
+        if out['sample'] is None and res.get('nontrivial') and j >= (int(task['i']) % 5):
+            s_ = rec['soln']
+            out['sample'] = dict(problem=problem_summary(prob), calls=len(rec['calls']), exit=exit_route(s_),
+                                 nf=getattr(s_, 'nf', None), nx=getattr(s_, 'nx', None), nruns=getattr(s_, 'nruns', None),
+                                 obj=(fh(s_.obj) if s_ is not None and s_.obj is not None else None),
+                                 xmin_eval_num=(int(s_.xmin_eval_num) if s_ is not None and s_.xmin_eval_num is not None else None),
+                                 marks=res.get('marks', []))
+    stats['violation_counts'] = per_sig
+    stats['cpu_seconds'] = round(time.process_time() - cpu0, 2)
+    return out
+
+
+def replay_generic(data, judge, capture_log=True):
+    rec = run_solve(data['problem'], capture_log=capture_log)
+    res = judge(rec)
+    vs = res.get('violations', [])
+    want = data.get('signature')
+    pick = None
+    for v in vs:
+        if v['signature'] == want:
+            pick = v
+            break
+    if pick is None and vs:
+        pick = vs[0]
+    if pick is None:
+        return None
+    d = dict(problem=data['problem'], signature=pick['signature'])
+    d.update(pick.get('detail', {}))
+    return dict(signature=pick['signature'], what=pick['what'], data=d)
